@@ -1319,3 +1319,318 @@ def check_c16(tracks, rng: random.Random, co: CaseOut, model: bool = True, only:
                     co.model(f"C16 {op['name']}", " ".join(["EX", "ro", str(I.one)] + st_enc + code), real)
     finally:
         shutil.rmtree(d, ignore_errors=True)
+
+
+# ------------------------------------------------------------------------------------------------
+# running cases, shrinking, entry points
+# ------------------------------------------------------------------------------------------------
+def run_check(prop: str, tracks, seed: int, extra: dict | None = None, model: bool = True) -> CaseOut:
+    extra = extra or {}
+    rng = random.Random(seed)
+    co = CaseOut()
+    if prop == "C14":
+        check_c14(tracks, co, fmts=tuple(extra.get("fmts") or ("csv", "csv-display", "geff", "internal")), model=model)
+        T = table(tracks)
+        if T["nodes"]:
+            co.nontrivial.append(h([T["nodes"], T["edges"], T["seg"] is not None, T["scale"]]))
+    elif prop == "C15":
+        sels = extra.get("selections")
+        check_c15(tracks, rng, co, selections=[(k, list(s)) for k, s in sels] if sels else None, model=model,
+                  fmts=tuple(extra.get("fmts") or ("csv", "geff")))
+    else:
+        check_c16(tracks, rng, co, model=model, only=extra.get("only"))
+    return co
+
+
+def make_case(rng: random.Random, intensify: bool) -> tuple[dict, list[dict], Session] | None:
+    spec = G.gen_case(rng)
+    ses = Session(spec)
+    ops: list[dict] = []
+    if rng.random() < (0.7 if intensify else 0.5):
+        ops = gen_ops(random.Random(rng.getrandbits(64)), ses, rng.randint(6, 10))
+    return spec, ops, ses
+
+
+def reproduces(prop: str, spec: dict, ops: list[dict], seed: int, extra: dict, sig: str) -> bool:
+    try:
+        ses = build(spec, ops)
+        if state_valid(ses.tracks):
+            return False
+        co = run_check(prop, ses.tracks, seed, extra, model=False)
+    except Exception:  # noqa: BLE001
+        return False
+    return any(s == sig for _, s, _ in co.fails)
+
+
+def shrink(prop: str, spec: dict, ops: list[dict], seed: int, extra: dict, sig: str, budget_s: float = 25.0) -> dict:
+    t0 = _time.time()
+    extra = dict(extra)
+    fmt = sig.split("|")[1] if prop in ("C14", "C15") else None
+    if prop == "C14" and fmt in ("csv", "csv-display", "geff", "internal"):
+        extra["fmts"] = [fmt]
+    if prop == "C15" and fmt in ("csv", "geff"):
+        extra["fmts"] = [fmt]
+    if prop == "C16":
+        extra["only"] = extra.get("only")
+    if not reproduces(prop, spec, ops, seed, extra, sig):
+        extra.pop("fmts", None)
+        if not reproduces(prop, spec, ops, seed, extra, sig):
+            return {"spec": spec, "ops": ops, "check_seed": seed, "extra": extra, "note": "not minimised (did not reproduce in isolation)"}
+    changed = True
+    while changed and _time.time() - t0 < budget_s:
+        changed = False
+        for i in range(len(ops)):
+            cand = ops[:i] + ops[i + 1:]
+            if reproduces(prop, spec, cand, seed, extra, sig):
+                ops, changed = cand, True
+                break
+    if prop == "C15" and extra.get("selections"):
+        sels = [(k, list(s)) for k, s in extra["selections"]]
+        for k, s in sels:  # one failing selection is enough
+            e2 = {**extra, "selections": [(k, s)]}
+            if reproduces(prop, spec, ops, seed, e2, sig):
+                extra = e2
+                break
+        changed = True
+        while changed and _time.time() - t0 < budget_s and len(extra["selections"]) == 1:
+            changed = False
+            k, s = extra["selections"][0]
+            for x in list(s):
+                e2 = {**extra, "selections": [(k, [y for y in s if y != x])]}
+                if reproduces(prop, spec, ops, seed, e2, sig):
+                    extra, changed = e2, True
+                    break
+    changed = True
+    while changed and _time.time() - t0 < budget_s:
+        changed = False
+        for x in list(spec["nodes"]):
+            s2 = copy.deepcopy(spec)
+            s2["nodes"] = [y for y in s2["nodes"] if y["id"] != x["id"]]
+            s2["edges"] = [e for e in s2["edges"] if x["id"] not in (e["u"], e["v"])]
+            if s2.get("seg"):
+                s2["seg"] = [0 if v == x["id"] else v for v in s2["seg"]]
+            e2 = extra
+            if prop == "C15" and extra.get("selections"):
+                e2 = {**extra, "selections": [(k, [y for y in s if y != x["id"]]) for k, s in extra["selections"]]}
+            if reproduces(prop, s2, ops, seed, e2, sig):
+                spec, extra, changed = s2, e2, True
+                break
+    for key in ("enable",):
+        if spec.get(key):
+            s2 = {**spec, key: []}
+            if reproduces(prop, s2, ops, seed, extra, sig):
+                spec = s2
+    return {"spec": spec, "ops": ops, "check_seed": seed, "extra": extra,
+            "note": f"minimised by delta debugging; replay with ./check {prop} --replay <this file>"}
+
+
+def _sel_extra(prop: str, tracks, seed: int) -> dict:
+    """C15: pin the generated selections so that a replay does not depend on the generator"""
+    if prop != "C15":
+        return {}
+    return {"selections": gen_selections(random.Random(seed), tracks.graph)}
+
+
+def _one_case(prop: str, spec: dict, ops: list[dict], ses: Session, seed: int, res: Result,
+              pend: list, seen: dict[str, int], stream: str) -> None:
+    tracks = ses.tracks
+    bad = state_valid(tracks)
+    if bad:
+        res.count(f"skipped:state-outside-domain:{bad}")
+        return
+    res.count(f"stream:{stream}")
+    res.count(f"cfg:{spec['cfg']}{spec.get('ndim', 3) - 1}d")
+    res.count("edited" if ops else "as-constructed")
+    res.count(f"nodes:{tracks.graph.number_of_nodes()}")
+    res.count("scale:" + ("none" if tracks.scale is None else "given"))
+    g = tracks.graph
+    if any(g.out_degree(n) >= 2 for n in g.nodes):
+        res.count("has:division")
+    if any(g.nodes[v][TIME_KEY] - g.nodes[u][TIME_KEY] > 1 for u, v in g.edges):
+        res.count("has:skip-edge")
+    if any(g.degree(n) == 0 for n in g.nodes):
+        res.count("has:isolated-node")
+    if any(v is None for _, a in g.nodes(data=True) for v in a.values()):
+        res.count("has:none-valued-attribute")
+    extra = _sel_extra(prop, tracks, seed)
+    if prop == "C15":
+        # same rng consumption as check_c15 would do: selections are passed explicitly
+        pass
+    co = run_check(prop, tracks, seed, extra)
+    res.evaluations += co.evals
+    res.nontrivial.update(co.nontrivial)
+    for k, v in co.counts.items():
+        res.count(k, v)
+    if len(res.samples) < 3 and tracks.graph.number_of_nodes() >= 3 and ops:
+        res.samples.append({"spec": {k: spec[k] for k in ("cfg", "ndim", "scale", "nodes", "edges") if k in spec},
+                            "ops": ops[:10]})
+    failed = False
+    for kind, sig, what in co.fails:
+        failed = True
+        res.count(("oracle-fail:" if kind != "divergence" else "divergence:") + sig)
+        seen[sig] = seen.get(sig, 0) + 1
+        if seen[sig] <= 1:
+            if kind == "oracle":
+                rp = shrink(prop, spec, ops, seed, extra, sig)
+                co2 = None
+                try:
+                    co2 = run_check(prop, build(rp["spec"], rp["ops"]).tracks, rp["check_seed"], rp["extra"], model=False)
+                except Exception:  # noqa: BLE001
+                    pass
+                w2 = [w for _, s, w in (co2.fails if co2 else []) if s == sig]
+                res.failures.append(Failure("oracle", prop, sig, w2[0] if w2 else what, rp))
+            else:
+                res.failures.append(Failure(kind, prop, sig, what,
+                                            {"spec": spec, "ops": ops, "check_seed": seed, "extra": extra}))
+    if failed:
+        res.count("cases-failing-oracle")
+    for line, (label, real) in zip(co.lines, co.expect):
+        pend.append((line, label, real, {"spec": spec, "ops": ops, "check_seed": seed, "extra": extra}))
+
+
+FIXED_CASES: list[dict] = [
+    # D5 probe: scale None, one division, GEFF export
+    {"spec": {"cfg": "pos", "ndim": 3, "with_ids": True, "scale": None,
+              "nodes": [{"id": 1, "time": 0, "pos": 5, "tid": 1, "lin": 1}, {"id": 2, "time": 1, "pos": 6, "tid": 2, "lin": 1},
+                        {"id": 3, "time": 1, "pos": 7, "tid": 3, "lin": 1}, {"id": 9, "time": 3, "pos": 8, "tid": 3, "lin": 1},
+                        {"id": 4, "time": 2, "pos": 9, "tid": 5, "lin": 7, "score": 3}],
+              "edges": [{"u": 1, "v": 2}, {"u": 1, "v": 3}, {"u": 3, "v": 9, "w": 4}]}, "ops": []},
+    # empty tracks
+    {"spec": {"cfg": "pos", "ndim": 3, "with_ids": True, "scale": None, "nodes": [], "edges": []}, "ops": []},
+    {"spec": {"cfg": "seg", "ndim": 3, "with_ids": True, "scale": None, "shape": [2, 3, 3], "seg": [0] * 18,
+              "enable": [], "nodes": [], "edges": []}, "ops": []},
+    # attribute left as None by undo of an attribute update
+    {"spec": {"cfg": "axes", "ndim": 3, "with_ids": True, "scale": [1.0, 1.0, 1.0],
+              "nodes": [{"id": 4, "time": 0, "pos": 5, "tid": 1, "lin": 1}, {"id": 7, "time": 1, "pos": 6, "tid": 1, "lin": 1, "score": 8}],
+              "edges": [{"u": 4, "v": 7}]},
+     "ops": [{"op": "updattrs", "n": 4, "attrs": {"20": 11}}, {"op": "undo"}]},
+]
+
+
+def _shard(args) -> Result:
+    prop, seed, ncases, intensify, fixed = args
+    rng = random.Random(seed)
+    res = Result(rule=RULES[prop])
+    pend: list = []
+    seen: dict[str, int] = {}
+    if fixed:
+        for fx in FIXED_CASES:
+            try:
+                ses = build(fx["spec"], fx["ops"])
+            except Exception as e:  # noqa: BLE001
+                res.notes.append(f"fixed case not buildable: {type(e).__name__}: {str(e)[:100]}")
+                continue
+            _one_case(prop, fx["spec"], fx["ops"], ses, 12345, res, pend, seen, "fixed-corpus")
+    for _ in range(ncases):
+        try:
+            made = make_case(rng, intensify)
+        except Hang:
+            res.count("skipped:editing-session-hang")
+            continue
+        except Exception as e:  # noqa: BLE001  construction failed: tooling limit, say so
+            res.count(f"skipped:case-not-buildable:{type(e).__name__}")
+            continue
+        spec, ops, ses = made
+        _one_case(prop, spec, ops, ses, rng.getrandbits(32), res, pend, seen, "random")
+    # ---- correspondence (batch)
+    if pend:
+        try:
+            outs = _driver().run([p[0] for p in pend])
+        except Exception as e:  # noqa: BLE001
+            res.notes.append(f"driver failure: {e}")
+            res.failures.append(Failure("divergence", prop, f"{prop}|driver|unavailable", str(e)[:300], {}))
+            return res
+        ndiv: dict[str, int] = {}
+        for (line, label, real, rp), mout in zip(pend, outs):
+            res.compared_steps += 1
+            if real != mout:
+                lab = label.split(" (")[0]
+                sig = f"{prop}|model-vs-code|" + lab.split(" ", 1)[1].replace(" ", "-")
+                res.count("divergence:" + sig)
+                ndiv[sig] = ndiv.get(sig, 0) + 1
+                if ndiv[sig] <= 1:
+                    rt, mt = real.split(" "), mout.split(" ")
+                    j = next((i for i, (a, b) in enumerate(zip(rt, mt)) if a != b), min(len(rt), len(mt)))
+                    res.failures.append(Failure(
+                        "divergence", prop, sig,
+                        f"{label}: first difference at token {j}: real …{' '.join(rt[max(0, j - 8):j + 8])}… "
+                        f"model …{' '.join(mt[max(0, j - 8):j + 8])}…", {**rp, "label": label}))
+    return res
+
+
+BUDGET = {"quick": {"C14": 288, "C15": 224, "C16": 256}, "thorough": {"C14": 4000, "C15": 3200, "C16": 4000}}
+
+
+def run(prop: str, tier: str, seed: int, intensify: bool = False) -> Result:
+    assert prop in PROPS
+    t0 = _time.time()
+    total = BUDGET.get(tier, BUDGET["quick"])[prop]
+    if intensify:
+        total = int(total * 1.5)
+    n = ncores()
+    per = max(1, total // n)
+    seeds = shard_seeds(seed * 1000 + int(prop[1:]) + (500 if intensify else 0), n)
+    jobs = [(prop, s, per, intensify, i == 0) for i, s in enumerate(seeds)]
+    res = Result(rule=RULES[prop])
+    with get_context("fork").Pool(n) as pool:
+        for r in pool.imap_unordered(_shard, jobs):
+            res.merge(r)
+    # one failure per signature, smallest replay first
+    res.failures.sort(key=lambda f: (f.kind != "oracle", f.signature, len(json.dumps(f.replay, default=str))))
+    uniq: dict[tuple[str, str], Failure] = {}
+    for f in res.failures:
+        uniq.setdefault((f.kind, f.signature), f)
+    res.failures = list(uniq.values())
+    ev = max(1, res.evaluations)
+    res.notes.append(f"cases failing the oracle: {res.distribution.get('cases-failing-oracle', 0)}; "
+                     f"evaluations {ev}; model-vs-code comparisons {res.compared_steps}; wall {(_time.time() - t0):.1f}s")
+    if prop == "C14":
+        res.notes.append(f"CSV: pandas' default float parser is not last-bit exact; re-imported float values within "
+                         f"{CSV_ULPS} ulp are accepted (counted as csv:positions-within-1ulp-not-bit-equal); the file itself "
+                         "is compared exactly with the model's encode")
+        res.notes.append("GEFF with a label array: the importer's own seg check needs a loaded position to lie inside its "
+                         "mask; for non-convex masks the store is re-imported with the position recomputed from the array "
+                         "(counted as geff:import-with-loaded-pos-refused)")
+    return res
+
+
+def replay(prop: str, replay_obj: dict) -> int:
+    rp = replay_obj.get("replay", replay_obj)
+    if "spec" not in rp:
+        cases = [d for d in rp.get("divergences", []) if isinstance(d, dict) and "spec" in d]
+        if not cases:
+            print(json.dumps(replay_obj, indent=1, default=str)[:4000])
+            return 0
+    else:
+        cases = [rp]
+    rc = 0
+    for c in cases:
+        spec, ops = c["spec"], c.get("ops", [])
+        print("initial :", json.dumps({k: spec.get(k) for k in ("cfg", "ndim", "scale", "nodes", "edges")}))
+        print("edits   :", json.dumps(ops))
+        ses = build(spec, ops)
+        t = ses.tracks
+        print("tracks  : nodes", list(t.graph.nodes(data=True)))
+        print("          edges", list(t.graph.edges(data=True)), "scale", t.scale, "seg", t.segmentation is not None)
+        bad = state_valid(t)
+        if bad:
+            print("state is outside the property's domain:", bad)
+        extra = c.get("extra") or {}
+        co = run_check(prop, t, c.get("check_seed", 0), extra)
+        for kind, sig, what in co.fails:
+            print(f"{'ORACLE FAIL' if kind != 'divergence' else 'DIVERGENCE'}: {sig}: {what}")
+            rc = 1
+        if not co.fails:
+            print("oracle  : holds on this input")
+        if co.lines:
+            outs = _driver().run(co.lines)
+            for (label, real), m in zip(co.expect, outs):
+                same = real == m
+                if not same or (c.get("label") and c["label"].split(" (")[0] == label.split(" (")[0]):
+                    print(f"--- {label}: {'agree' if same else 'DIVERGENCE'}")
+                    print("   code :", real[:1500])
+                    print("   model:", m[:1500])
+                if not same:
+                    rc = 1
+            print(f"model   : {len(co.lines)} comparisons, {sum(1 for (_, r), m in zip(co.expect, outs) if r != m)} differ")
+    return rc
